@@ -2,19 +2,26 @@ module verifharness
 
 go 1.23
 
-require diagonal.works/b6 v0.0.0
+require (
+	diagonal.works/b6 v0.0.0
+	github.com/golang/geo v0.0.0-20190916061304-5b978397cfec
+	google.golang.org/protobuf v1.30.0
+	gopkg.in/yaml.v2 v2.4.0
+)
 
 require (
-	github.com/golang/geo v0.0.0-20190916061304-5b978397cfec // indirect
+	github.com/apache/beam v2.32.0+incompatible // indirect
+	github.com/golang/groupcache v0.0.0-20210331224755-41bb18bfe9da // indirect
 	github.com/golang/protobuf v1.5.3 // indirect
+	golang.org/x/exp v0.0.0-20231110203233-9a3e6036ecaa // indirect
 	golang.org/x/mod v0.20.0 // indirect
 	golang.org/x/net v0.21.0 // indirect
+	golang.org/x/sync v0.10.0 // indirect
 	golang.org/x/sys v0.28.0 // indirect
 	golang.org/x/text v0.21.0 // indirect
+	gonum.org/v1/gonum v0.15.1 // indirect
 	google.golang.org/genproto v0.0.0-20230403163135-c38d8f061ccd // indirect
 	google.golang.org/grpc v1.54.0 // indirect
-	google.golang.org/protobuf v1.30.0 // indirect
-	gopkg.in/yaml.v2 v2.4.0 // indirect
 )
 
 replace diagonal.works/b6 => /repo/src/diagonal.works/b6
